@@ -680,6 +680,19 @@ def jobs_C18(tier, seed):
 def jobs_for(prop, tier, seed):
     jobs = globals()[f'jobs_{prop}'](tier, seed)
     if tier == 'thorough':
+        # depth where it pays: of the jobs of one budget class (PLAIN, FAULT, CANCEL, ...) only
+        # DEEP_K evenly spread ones get the deeper thorough budget, the others keep the quick one
+        # (the thorough tier must stay runnable: ~10 min per property on 16 cores)
+        Q, T = BD('quick'), BD('thorough')
+        DEEP_K = 3
+        for key in T:
+            idxs = [i for i, j in enumerate(jobs) if isinstance(j.get('bound'), dict) and j['bound'] == T[key] and 'scn' in j]
+            if len(idxs) <= DEEP_K:
+                continue
+            keep = {idxs[(i * len(idxs)) // DEEP_K] for i in range(DEEP_K)}
+            for i in idxs:
+                if i not in keep:
+                    jobs[i] = dict(jobs[i], bound=dict(Q[key]))
         # context-bounding proper: switches forced by blocking are free and ALL explored, only
         # preemptions are bounded (single-transfer scenarios; the other jobs charge forced switches).
         # Fault jobs: one preemption; cancel jobs: every non-preemptive schedule x every cancel point.
